@@ -5,11 +5,9 @@ mod c04;
 mod c10;
 mod common;
 mod core_props;
-mod derived;
 mod hist_props;
 mod io_props;
 mod mem_props;
-mod universe;
 
 use common::{Ctx, Tier};
 
@@ -47,6 +45,28 @@ fn main() {
 	}
 	match prop.as_str() {
 		"noop" => {},
+		"fuzz-seeds" => {
+			// seed corpus for the coverage-guided stage: (type index, little endian) ++ a valid encoding,
+			// with the type numbering used by harness/fuzz/fuzz_targets/decode_diff.rs
+			let dir = ctx.out.clone();
+			std::fs::create_dir_all(&dir).expect("corpus dir");
+			let types: Vec<&monitor::ops::TypeOps> = ctx.universe.iter().filter(|o| o.dec.is_some() && !o.has_tag("huge") && !o.has_tag("zst-elem")).collect();
+			let mut n = 0;
+			for (i, ops) in types.iter().enumerate() {
+				let mut rng = ctx.rng_for(ops.name);
+				for k in 0..3 {
+					let case = common::gen_case(ops, &mut rng, true);
+					if case.bytes.len() > 300 {
+						continue;
+					}
+					let mut b = (i as u16).to_le_bytes().to_vec();
+					b.extend_from_slice(&case.bytes);
+					std::fs::write(format!("{dir}/seed-{i}-{k}"), b).expect("write seed");
+					n += 1;
+				}
+			}
+			println!("{n} seeds for {} types", types.len());
+		},
 		"replay" => {
 			// re-judge one witness (type + bytes) with the byte-string, wire-format and round-trip monitors
 			let name = ctx.only_type.clone().expect("--type");
